@@ -115,6 +115,16 @@ Next ==
            ELSE IF e.has = 1 /\ ~got THEN Reject("emitsync_result_not_delivered_to_sink")
            ELSE UNCHANGED dead
         /\ UNCHANGED <<cfg, rows, got, pendS, pendC>>
+     \* concurrent EmitSync callers: every returned row is judged against the row that went in, on its own
+     ELSE IF e.e = "cret" THEN
+        LET row == e.in  p == Passes(row)  o == WhereOpen(row) IN
+        /\ IF e.panic = 1 THEN Reject("emitsync_panic")
+           ELSE IF e.has = 1 /\ ~p /\ ~o THEN Reject("emitsync_result_for_rejected_row")
+           ELSE IF e.has = 0 /\ p /\ e.err = 0 THEN Reject("emitsync_no_result_for_accepted_row")
+           ELSE IF e.has = 0 /\ p /\ e.err = 1 /\ ~o THEN Reject("emitsync_error_for_accepted_row")
+           ELSE IF e.has = 1 /\ RowCode(e.row, row) # "" THEN Reject("emitsync_" \o RowCode(e.row, row))
+           ELSE UNCHANGED dead
+        /\ UNCHANGED <<cfg, rows, got, pendS, pendC>>
      ELSE IF e.e = "quiesce" THEN
         /\ IF ~Burst /\ SinkMissing THEN Reject("sink_result_missing")
            ELSE IF Burst /\ pendS # <<>> THEN Reject("sink_result_missing")
